@@ -100,7 +100,7 @@ func cmdAio(args []string) {
 				returned := true
 				select {
 				case <-done:
-				case <-time.After(250 * time.Millisecond):
+				case <-time.After(2 * time.Second):
 					returned = false
 					blocked = true
 				}
@@ -132,7 +132,7 @@ func cmdAio(args []string) {
 				}()
 				select {
 				case <-done:
-				case <-time.After(250 * time.Millisecond):
+				case <-time.After(2 * time.Second):
 					// by the harness's count the queue has room: something else is sitting in it
 					ops = append(ops, C("AOp", C("AComplete", N(idn)), false, L()))
 					stuck = true
